@@ -227,6 +227,8 @@ type instr struct {
 	full    bool
 	changed bool
 	fn      []string // enclosing function name stack
+	comm    map[ast.Node]bool // communication clauses of select statements (and their receive expressions): left to the select
+	nsel    int
 }
 
 func (in *instr) site(kind string, pos token.Pos, extra string) string {
@@ -288,7 +290,8 @@ func (in *instr) run() bool {
 			mt, ok := tv.Type.Underlying().(*types.Map)
 			if !ok {
 				if _, isChan := tv.Type.Underlying().(*types.Chan); isChan && in.full {
-					in.rep.Uncontrolled = append(in.rep.Uncontrolled, in.site("range-chan", n.Pos(), ""))
+					c.Replace(in.rewriteRangeChan(n))
+					in.changed = true
 				}
 				return true
 			}
@@ -323,15 +326,42 @@ func (in *instr) run() bool {
 			}
 		case *ast.SelectStmt:
 			if in.full {
-				in.rep.Uncontrolled = append(in.rep.Uncontrolled, in.site("select", n.Pos(), ""))
+				if st := in.rewriteSelect(n); st != nil {
+					c.Replace(st)
+				}
 			}
 		case *ast.SendStmt:
-			if in.full {
-				in.rep.Uncontrolled = append(in.rep.Uncontrolled, in.site("chan-send", n.Pos(), ""))
+			if in.full && !in.comm[n] {
+				site := in.site("chan", n.Pos(), "send "+in.exprString(n.Chan))
+				in.rep.SyncSites = append(in.rep.SyncSites, site)
+				c.Replace(&ast.ExprStmt{X: simCall("ChanSend", n.Chan, n.Value, strLit(site))})
+				in.changed = true
+			}
+		case *ast.AssignStmt:
+			// v, ok := <-ch
+			if in.full && !in.comm[n] && len(n.Lhs) == 2 && len(n.Rhs) == 1 {
+				if u, ok := ast.Unparen(n.Rhs[0]).(*ast.UnaryExpr); ok && u.Op == token.ARROW {
+					site := in.site("chan", u.Pos(), "recv "+in.exprString(u.X))
+					in.rep.SyncSites = append(in.rep.SyncSites, site)
+					n.Rhs[0] = simCall("ChanRecv2", u.X, strLit(site))
+					in.changed = true
+				}
+			}
+		case *ast.ValueSpec:
+			if in.full && len(n.Names) == 2 && len(n.Values) == 1 {
+				if u, ok := ast.Unparen(n.Values[0]).(*ast.UnaryExpr); ok && u.Op == token.ARROW {
+					site := in.site("chan", u.Pos(), "recv "+in.exprString(u.X))
+					in.rep.SyncSites = append(in.rep.SyncSites, site)
+					n.Values[0] = simCall("ChanRecv2", u.X, strLit(site))
+					in.changed = true
+				}
 			}
 		case *ast.UnaryExpr:
-			if n.Op == token.ARROW && in.full {
-				in.rep.Uncontrolled = append(in.rep.Uncontrolled, in.site("chan-recv", n.Pos(), ""))
+			if n.Op == token.ARROW && in.full && !in.comm[n] {
+				site := in.site("chan", n.Pos(), "recv "+in.exprString(n.X))
+				in.rep.SyncSites = append(in.rep.SyncSites, site)
+				c.Replace(simCall("ChanRecv", n.X, strLit(site)))
+				in.changed = true
 			}
 		}
 		return true
@@ -506,6 +536,14 @@ func calleeOf(info *types.Info, call *ast.CallExpr) *types.Func {
 
 func (in *instr) rewriteCall(c *astutil.Cursor, call *ast.CallExpr) {
 	info := in.pkg.TypesInfo
+	if id, ok := ast.Unparen(call.Fun).(*ast.Ident); ok && in.full && id.Name == "close" && len(call.Args) == 1 {
+		if _, isBuiltin := info.Uses[id].(*types.Builtin); isBuiltin {
+			in.rep.SyncSites = append(in.rep.SyncSites, in.site("chan", call.Pos(), "close"))
+			call.Fun = &ast.SelectorExpr{X: ast.NewIdent("simrt"), Sel: ast.NewIdent("ChanClose")}
+			in.changed = true
+			return
+		}
+	}
 	fn := calleeOf(info, call)
 	if fn == nil || fn.Pkg() == nil {
 		return
@@ -670,6 +708,95 @@ func (in *instr) rewriteCall(c *astutil.Cursor, call *ast.CallExpr) {
 	call.Fun = &ast.SelectorExpr{X: ast.NewIdent("simrt"), Sel: ast.NewIdent(simName)}
 	call.Args = args
 	in.changed = true
+}
+
+// rewriteRangeChan turns `for v := range ch { body }` into
+//
+//	for _verifCh := ch; ; {
+//		_verifV, _verifOk := simrt.ChanRecv2(_verifCh, site)
+//		if !_verifOk { break }
+//		v := _verifV
+//		{ body }
+//	}
+func (in *instr) rewriteRangeChan(n *ast.RangeStmt) ast.Stmt {
+	site := in.site("chan", n.Pos(), "range "+in.exprString(n.X))
+	in.rep.SyncSites = append(in.rep.SyncSites, site)
+	id := func(s string) *ast.Ident { return ast.NewIdent(s) }
+	list := []ast.Stmt{
+		&ast.AssignStmt{Lhs: []ast.Expr{id("_verifV"), id("_verifOk")}, Tok: token.DEFINE,
+			Rhs: []ast.Expr{simCall("ChanRecv2", id("_verifCh"), strLit(site))}},
+		&ast.IfStmt{Cond: &ast.UnaryExpr{Op: token.NOT, X: id("_verifOk")},
+			Body: &ast.BlockStmt{List: []ast.Stmt{&ast.BranchStmt{Tok: token.BREAK}}}},
+	}
+	switch {
+	case n.Key == nil:
+		list = append(list, &ast.AssignStmt{Lhs: []ast.Expr{id("_")}, Tok: token.ASSIGN, Rhs: []ast.Expr{id("_verifV")}})
+	case n.Tok == token.DEFINE:
+		if k, ok := n.Key.(*ast.Ident); ok && k.Name == "_" {
+			list = append(list, &ast.AssignStmt{Lhs: []ast.Expr{id("_")}, Tok: token.ASSIGN, Rhs: []ast.Expr{id("_verifV")}})
+		} else {
+			list = append(list, &ast.AssignStmt{Lhs: []ast.Expr{n.Key}, Tok: token.DEFINE, Rhs: []ast.Expr{id("_verifV")}})
+		}
+	default:
+		list = append(list, &ast.AssignStmt{Lhs: []ast.Expr{n.Key}, Tok: token.ASSIGN, Rhs: []ast.Expr{id("_verifV")}})
+	}
+	list = append(list, n.Body)
+	return &ast.ForStmt{
+		Init: &ast.AssignStmt{Lhs: []ast.Expr{id("_verifCh")}, Tok: token.DEFINE, Rhs: []ast.Expr{n.X}},
+		Body: &ast.BlockStmt{List: list},
+	}
+}
+
+// rewriteSelect leaves the communication clauses to the select statement, makes
+// every taken case wake parked tasks, and gives a select without default a
+// default clause that parks in the simulator and retries:
+//
+//	_verifSelN:
+//		select {
+//		case v := <-a: simrt.Unlocked(); ...
+//		default: simrt.SelectBlocked(site); goto _verifSelN
+//		}
+func (in *instr) rewriteSelect(n *ast.SelectStmt) ast.Stmt {
+	if in.comm == nil {
+		in.comm = map[ast.Node]bool{}
+	}
+	hasDefault := false
+	for _, cl := range n.Body.List {
+		cc, ok := cl.(*ast.CommClause)
+		if !ok {
+			continue
+		}
+		if cc.Comm == nil {
+			hasDefault = true
+			continue
+		}
+		in.comm[cc.Comm] = true
+		switch st := cc.Comm.(type) {
+		case *ast.ExprStmt:
+			in.comm[ast.Unparen(st.X)] = true
+		case *ast.AssignStmt:
+			if len(st.Rhs) == 1 {
+				in.comm[ast.Unparen(st.Rhs[0])] = true
+			}
+		}
+		cc.Body = append([]ast.Stmt{&ast.ExprStmt{X: simCall("Unlocked")}}, cc.Body...)
+	}
+	in.changed = true
+	site := in.site("chan", n.Pos(), "select")
+	in.rep.SyncSites = append(in.rep.SyncSites, site)
+	if hasDefault {
+		// never blocks; cannot see a partner that waits in the simulator for a
+		// rendezvous on an unbuffered channel
+		in.rep.Uncontrolled = append(in.rep.Uncontrolled, in.site("select-with-default", n.Pos(), ""))
+		return nil
+	}
+	in.nsel++
+	label := "_verifSel" + strconv.Itoa(in.nsel)
+	n.Body.List = append(n.Body.List, &ast.CommClause{Body: []ast.Stmt{
+		&ast.ExprStmt{X: simCall("SelectBlocked", strLit(site))},
+		&ast.BranchStmt{Tok: token.GOTO, Label: ast.NewIdent(label)},
+	}})
+	return &ast.LabeledStmt{Label: ast.NewIdent(label), Stmt: n}
 }
 
 func structOf(t types.Type) *types.Struct {
